@@ -227,6 +227,7 @@ func ruleR20_1(w *World, r *Report) {
 		field string
 		pos   string
 		n     int
+		role  bool
 	}
 	found := map[string]*acc{}
 	held := 0
@@ -253,8 +254,17 @@ func ruleR20_1(w *World, r *Report) {
 				return
 			}
 			k := fnName(f) + "/" + name
+			// the flag written after the mutex was released is the same construct wherever the release sequence lives
+			// (unlock(), or the same statements inlined into a deferred closure): keyed by its role
+			if name == "TransactionDatatype.isLocked" {
+				for _, c := range callsNamed(in.Parent(), "Unlock") {
+					if recv, _ := recvAndArgs(c); recv != nil && strings.HasSuffix(canonName(recv), ".mutex") && c.Parent() == in.Parent() && reachableFrom(c.(ssa.Instruction), in) {
+						k = "TransactionDatatype.unlock/" + name
+					}
+				}
+			}
 			if found[k] == nil {
-				found[k] = &acc{fn: f, field: name, pos: u.Pos(in.Pos())}
+				found[k] = &acc{fn: f, field: name, pos: u.Pos(in.Pos()), role: strings.HasPrefix(k, "TransactionDatatype.unlock/")}
 			}
 			found[k].n++
 		})
@@ -276,6 +286,8 @@ func ruleR20_1(w *World, r *Report) {
 		name := fnName(a.fn)
 		key := name + "/" + a.field
 		switch {
+		case a.role:
+			key = "TransactionDatatype.unlock/" + a.field
 		case name == "TransactionDatatype.BeginTransaction" || name == "TransactionDatatype.unlock":
 		default:
 			if _, ok := syncPath[a.fn]; ok {
